@@ -34,6 +34,10 @@ type Explorer struct {
 	MaxSteps    int
 	Samples     []string
 	counter     int
+	unknown     int
+	knownSeen   map[string]int
+	// IsKnown: failure classes that are recorded but do not stop the exploration.
+	IsKnown func(class string) bool
 	// OnExec is called for every owned execution (after the oracle).
 	OnExec func(x *Exec)
 }
@@ -52,7 +56,7 @@ func (e *Explorer) stop() bool {
 	if e.Capped {
 		return true
 	}
-	if e.StopOnViol && len(e.Violations) > 0 {
+	if e.StopOnViol && e.unknown > 0 {
 		return true
 	}
 	if !e.Deadline.IsZero() && time.Now().After(e.Deadline) {
@@ -88,7 +92,16 @@ func (e *Explorer) explore(prefix []int, depth int, count bool) {
 			e.OnExec(x)
 		}
 		if x.Violation != "" {
-			e.Violations = append(e.Violations, x)
+			if e.IsKnown == nil || !e.IsKnown(x.Class) {
+				e.unknown++
+				e.Violations = append(e.Violations, x)
+			} else if e.knownSeen[x.Class] < 2 {
+				if e.knownSeen == nil {
+					e.knownSeen = map[string]int{}
+				}
+				e.knownSeen[x.Class]++
+				e.Violations = append(e.Violations, x)
+			}
 		}
 	} else {
 		e.DupExecs++
